@@ -126,6 +126,12 @@ func (e *Engine) registerTLS() {
 		}
 		return c.ret(IfaceV{})
 	})
-	r("opaque:cctx.Done", func(c *CallCtx) []Outcome { return c.ret(ChanV{}) })
+	r("opaque:cctx.Done", func(c *CallCtx) []Outcome {
+		id := c.args[0].(IfaceV).v.(OpaqueV).data.(int)
+		if c.st.heap.objs[id].(OpaqueV).data.(*ctxState).cancelled {
+			return c.ret(ChanV{obj: c.st.newObj(&ArrayV{e: []Value{tTrue}})})
+		}
+		return c.ret(ChanV{})
+	})
 	r("time.NewTicker", func(c *CallCtx) []Outcome { return c.ret(Ptr{obj: c.st.newObj(OpaqueV{kind: "ticker"})}) })
 }
